@@ -2,6 +2,7 @@
    `ws_limit_of`, `http_limit_of`, `http_reported_of`, `ws_reported_limit`, `builder_*` are GENERATED from the Rust sources
    (Gen/LimitsWiringGen.v): if an entry point hands any other value than max_request_body_size to soketto or to
    read_body, C07_wiring (and everything below it) stops compiling. *)
+From Coq Require Import Sorting.Permutation.
 From JV Require Import Base.Bytes Gen.LimitsWiringGen Model.ReqLimit Proofs.ReqLimitFacts.
 Local Open Scope N_scope.
 
@@ -42,4 +43,32 @@ Example C07_witness_ws : let c := {| max_request := 100; max_response := 40 |} i
 Proof. vm_compute. repeat split. Qed.
 
 Example C07_witness_http : let c := {| max_request := 100; max_response := 40 |} in http_result EpHttpCallBuilder c (Some 100) [60; 40] = Some HProcessed /\ http_result EpHttpCall c (Some 101) [60; 41] = Some (HTooLarge413 100) /\ http_result EpTower c None [60; 41] = Some HStream500 /\ http_result EpServer c None [30; 30; 40] = Some HProcessed /\ http_result EpServer c (Some 5) [60; 41] = Some HStream500 /\ http_result EpWsConnect c None [1] = None.
+Proof. vm_compute. repeat split. Qed.
+
+(* ---- the rejection under back-pressure.  `conn_step l r cap` is the connection with its bounded outgoing channel of
+   capacity `cap` (ServerBuilder::set_message_buffer_capacity): receive loop, one spawned task per accepted message, the
+   loop itself parked in `send_error(..).await` while the channel is full, send_task writing to a peer that may not be
+   reading.  `cap` and the interleaving are universally quantified and do not occur in the result: back-pressure delays
+   but never drops, duplicates or alters a reply. *)
+
+Theorem C07_pipeline_each_answered : forall (e : ep) (c : cfg) (l cap : N) (msgs : list pmsg) (k : conn), ws_limit_of e c = Some l -> 1 <= cap -> conn_steps l (ws_reported_limit c) cap (conn_init msgs) k -> conn_stuck l (ws_reported_limit c) cap k -> Permutation (k_wire k) (ws_pipeline_replies c msgs).
+Proof. exact pipeline_each_answered. Qed.
+Print Assumptions C07_pipeline_each_answered.
+
+Theorem C07_pipeline_counts : forall (e : ep) (c : cfg) (l cap : N) (msgs : list pmsg) (k : conn), ws_limit_of e c = Some l -> 1 <= cap -> conn_steps l (ws_reported_limit c) cap (conn_init msgs) k -> conn_stuck l (ws_reported_limit c) cap k -> count_occ preply_eq_dec (k_wire k) (PRejected (max_request c)) = length (filter (fun m => max_request c <? pm_size m) msgs) /\ (forall id, count_occ preply_eq_dec (k_wire k) (PAnswered id) = length (filter (fun m => (pm_size m <=? max_request c) && (pm_id m =? id)) msgs)) /\ (forall r, r <> max_request c -> count_occ preply_eq_dec (k_wire k) (PRejected r) = 0%nat).
+Proof. exact pipeline_counts. Qed.
+Print Assumptions C07_pipeline_counts.
+
+Theorem C07_pipeline_delays_only : forall (e : ep) (c : cfg) (l cap : N) (msgs : list pmsg) (k : conn), ws_limit_of e c = Some l -> 1 <= cap -> conn_steps l (ws_reported_limit c) cap (conn_init msgs) k -> (exists rest, Permutation (k_wire k ++ rest) (ws_pipeline_replies c msgs)) /\ ((exists k', conn_step l (ws_reported_limit c) cap k k') \/ Permutation (k_wire k) (ws_pipeline_replies c msgs)).
+Proof. exact pipeline_delays_only. Qed.
+Print Assumptions C07_pipeline_delays_only.
+
+Theorem C07_pipeline_session : forall (e : ep) (c : cfg) (cap : N) (msgs : list pmsg) (wire : list preply) (parked : bool), ws_pipeline_session e c cap msgs = Some (wire, true, parked) -> Permutation wire (ws_pipeline_replies c msgs).
+Proof. exact pipeline_session_spec. Qed.
+Print Assumptions C07_pipeline_session.
+
+(* non-vacuity: with capacity 1 and a peer that does not read, the receive loop IS parked behind the full channel when the
+   oversized message (id 4, 101 bytes > 100) arrives -- third component `true` -- and the rejection is delivered all the
+   same; with the oversized message first it is not parked (control) *)
+Example C07_witness_pipeline : let c := {| max_request := 100; max_response := 40 |} in let m i n := {| pm_id := i; pm_size := n |} in ws_pipeline_session EpServer c 1 [m 1 80; m 2 80; m 3 80; m 4 101; m 5 60] = Some ([PAnswered 1; PAnswered 2; PAnswered 3; PRejected 100; PAnswered 5], true, true) /\ ws_pipeline_session EpWsConnect c 1 [m 4 101; m 1 80; m 2 80] = Some ([PRejected 100; PAnswered 1; PAnswered 2], true, false) /\ ws_pipeline_session EpTower c 2 [m 1 80; m 4 400; m 6 101; m 2 100] = Some ([PAnswered 1; PRejected 100; PRejected 100; PAnswered 2], true, true) /\ ws_pipeline_session EpHttpCall c 1 [m 1 80] = None.
 Proof. vm_compute. repeat split. Qed.
